@@ -605,7 +605,10 @@ pub fn post_pause_walk(w: &mut World, when: &str, info: GcInfo) -> BTreeMap<u64,
                     done.push(rid);
                 } else {
                     // retained by mmtk (soft, or not examined in this kind of GC)
-                    if must_clear && kind == obj::KIND_WEAK {
+                    // (Referents in never-collected spaces are never dead, so references to them
+                    // are legitimately kept.)
+                    let collectable = w.objs.get(&rec.referent).map(|o| o.sem != SEM_IMMORTAL).unwrap_or(true);
+                    if must_clear && kind == obj::KIND_WEAK && collectable {
                         violation(
                             "C06",
                             "weak-not-cleared",
@@ -623,6 +626,10 @@ pub fn post_pause_walk(w: &mut World, when: &str, info: GcInfo) -> BTreeMap<u64,
             }
         }
     }
+    // Which reference objects were alive when mmtk-core processed them: soft and weak references
+    // are processed before finalization (a dead reference object has its referent cleared
+    // without being enqueued, by design), phantom references after it.
+    let alive_at_soft_weak: BTreeSet<u64> = wk.found.keys().cloned().collect();
     // ---- finalizers: registered objects that are not reachable now are (or will become) ready
     let fin_ids: Vec<u64> = w.fin_registered.iter().filter(|(_, n)| **n > 0).map(|(k, _)| *k).collect();
     let mut fin_closure: BTreeSet<u64> = BTreeSet::new();
@@ -676,7 +683,8 @@ pub fn post_pause_walk(w: &mut World, when: &str, info: GcInfo) -> BTreeMap<u64,
                 cleared_now.insert(rid);
                 done.push(rid);
             } else {
-                if must_clear && !fin_closure.contains(&rec.referent) {
+                let collectable = w.objs.get(&rec.referent).map(|o| o.sem != SEM_IMMORTAL).unwrap_or(true);
+                if must_clear && !fin_closure.contains(&rec.referent) && collectable {
                     violation(
                         "C06",
                         "phantom-not-cleared",
@@ -699,7 +707,11 @@ pub fn post_pause_walk(w: &mut World, when: &str, info: GcInfo) -> BTreeMap<u64,
                 continue;
             }
             let n = enq.get(&rid).cloned().unwrap_or(0);
-            if n != 1 && wk.found.contains_key(&rid) {
+            let was_alive = match w.refs[&rid].kind {
+                obj::KIND_PHANTOM => alive_at_soft_weak.contains(&rid) || fin_closure.contains(&rid),
+                _ => alive_at_soft_weak.contains(&rid),
+            };
+            if was_alive && n != 1 {
                 violation(
                     "C06",
                     "cleared-not-enqueued-once",
@@ -708,6 +720,19 @@ pub fn post_pause_walk(w: &mut World, when: &str, info: GcInfo) -> BTreeMap<u64,
             }
         }
         for (rid, n) in enq.iter() {
+            if let Some(r) = w.refs.get(rid) {
+                let was_alive = match r.kind {
+                    obj::KIND_PHANTOM => alive_at_soft_weak.contains(rid) || fin_closure.contains(rid),
+                    _ => alive_at_soft_weak.contains(rid),
+                };
+                if !was_alive {
+                    violation(
+                        "C06",
+                        "dead-reference-enqueued",
+                        format!("pause {}: reference {} was enqueued although the reference object itself was unreachable", pn, rid),
+                    );
+                }
+            }
             if !w.pause.cleared.contains(rid) {
                 violation(
                     "C06",
